@@ -24,8 +24,12 @@ pub enum Kind {
     OptF32,
     RevF64,
     RevF32,
+    /// the same sketchers with the crate's no-op hasher (the u64 item IS the hash value, byte-swapped on little endian)
+    SetU32NoHash,
+    OptF64NoHash,
+    RevF64NoHash,
 }
-pub const KINDS: [Kind; 12] = [
+pub const KINDS: [Kind; 15] = [
     Kind::SmhF64,
     Kind::SmhF32,
     Kind::SmhF64NoHash,
@@ -38,19 +42,25 @@ pub const KINDS: [Kind; 12] = [
     Kind::OptF32,
     Kind::RevF64,
     Kind::RevF32,
+    Kind::SetU32NoHash,
+    Kind::OptF64NoHash,
+    Kind::RevF64NoHash,
 ];
 impl Kind {
     pub fn is_dens(&self) -> bool {
-        matches!(self, Kind::OptF64 | Kind::OptF32 | Kind::RevF64 | Kind::RevF32)
+        matches!(self, Kind::OptF64 | Kind::OptF32 | Kind::RevF64 | Kind::RevF32 | Kind::OptF64NoHash | Kind::RevF64NoHash)
     }
     pub fn is_set(&self) -> bool {
-        matches!(self, Kind::SetU16 | Kind::SetU32)
+        matches!(self, Kind::SetU16 | Kind::SetU32 | Kind::SetU32NoHash)
     }
     pub fn is_smh(&self) -> bool {
         matches!(self, Kind::SmhF64 | Kind::SmhF32 | Kind::SmhF64NoHash)
     }
     pub fn is_smh2(&self) -> bool {
         matches!(self, Kind::Smh2U64 | Kind::Smh2U64NoHash | Kind::Smh2U32)
+    }
+    pub fn is_nohash(&self) -> bool {
+        matches!(self, Kind::SmhF64NoHash | Kind::Smh2U64NoHash | Kind::SetU32NoHash | Kind::OptF64NoHash | Kind::RevF64NoHash)
     }
     pub fn is_f32(&self) -> bool {
         matches!(self, Kind::SmhF32 | Kind::OptF32 | Kind::RevF32)
@@ -205,10 +215,10 @@ impl<H: Hasher + Default> Sk for Smh2<u32, H> {
     }
 }
 
-pub struct SetSk<I: num::Integer>(pub SetSketcher<I, u64, FnvHasher>, pub SsParams);
+pub struct SetSk<I: num::Integer, H: Hasher + Default = FnvHasher>(pub SetSketcher<I, u64, H>, pub SsParams);
 macro_rules! impl_set {
     ($i:ty) => {
-        impl Sk for SetSk<$i> {
+        impl<H: Hasher + Default> Sk for SetSk<$i, H> {
             fn sketch(&mut self, x: u64) {
                 self.0.sketch(&x).unwrap();
             }
@@ -232,11 +242,11 @@ macro_rules! impl_set {
                 }
             }
             fn hash_of(&self, x: u64) -> u64 {
-                BuildHasherDefault::<FnvHasher>::default().hash_one(&x)
+                BuildHasherDefault::<H>::default().hash_one(&x)
             }
             fn merge_items(&mut self, items: &[u64]) -> Option<bool> {
                 let p = SetSketchParams::new(self.1.b.0, self.0.get_signature().len() as u64, self.1.a.0, self.1.q);
-                let mut o = SetSketcher::<$i, u64, FnvHasher>::new(p, Default::default());
+                let mut o = SetSketcher::<$i, u64, H>::new(p, Default::default());
                 for x in items {
                     o.sketch(x).unwrap();
                 }
@@ -248,11 +258,11 @@ macro_rules! impl_set {
 impl_set!(u16);
 impl_set!(u32);
 
-struct Opt<Fl: num::Float>(OptDensMinHash<Fl, u64, FnvHasher>);
-struct Rev<Fl: num::Float>(RevOptDensMinHash<Fl, u64, FnvHasher>);
+struct Opt<Fl: num::Float, H: Hasher + Default = FnvHasher>(OptDensMinHash<Fl, u64, H>);
+struct Rev<Fl: num::Float, H: Hasher + Default = FnvHasher>(RevOptDensMinHash<Fl, u64, H>);
 macro_rules! impl_dens {
     ($t:ident, $fl:ty, $bits:ident) => {
-        impl Sk for $t<$fl> {
+        impl<H: Hasher + Default> Sk for $t<$fl, H> {
             fn sketch(&mut self, x: u64) {
                 self.0.sketch(&x);
             }
@@ -275,7 +285,7 @@ macro_rules! impl_dens {
                 }
             }
             fn hash_of(&self, x: u64) -> u64 {
-                BuildHasherDefault::<FnvHasher>::default().hash_one(&x)
+                BuildHasherDefault::<H>::default().hash_one(&x)
             }
             fn raw(&self) -> Option<Raw> {
                 let (f, h, i, n) = self.0.verif_raw();
@@ -305,5 +315,8 @@ pub fn make(kind: Kind, m: usize, ss: &SsParams) -> Box<dyn Sk> {
         Kind::OptF32 => Box::new(Opt::<f32>(OptDensMinHash::new(m, Default::default()))),
         Kind::RevF64 => Box::new(Rev::<f64>(RevOptDensMinHash::new(m, Default::default()))),
         Kind::RevF32 => Box::new(Rev::<f32>(RevOptDensMinHash::new(m, Default::default()))),
+        Kind::SetU32NoHash => Box::new(SetSk::<u32, NoHashHasher>(SetSketcher::new(ss.to_params(m), Default::default()), *ss)),
+        Kind::OptF64NoHash => Box::new(Opt::<f64, NoHashHasher>(OptDensMinHash::new(m, Default::default()))),
+        Kind::RevF64NoHash => Box::new(Rev::<f64, NoHashHasher>(RevOptDensMinHash::new(m, Default::default()))),
     }
 }
